@@ -72,6 +72,20 @@ pub fn run(ctx: &Ctx) {
         if r.crashed() { ctx.panic_violation(format!("{P}:new:{shape}:{}", r.crash_kind()), format!("{} (requests seen: {})", r.describe(), reqs.len()), full.replay("vanity-failure-injection", i, Build::Release)) }
         else if r.ok() || !r.stdout.is_empty() { ctx.violation(format!("{P}:new:{shape}:phrase-despite-failure"), format!("the entropy source failed at request {k} but the tool printed {:?}", trunc(&r.line(), 120)), full.replay("vanity-failure-injection", i, Build::Release)) }
     });
+    // a single failing request while every other request succeeds: the worker that hit the failure finishes first
+    // (none of the first 60 answers matches, so no other worker can have finished), and the search must end with an error
+    let once: Vec<(u64, &str)> = [1u64, 2, 3, 5].iter().flat_map(|k| ["1", "2", "4"].iter().map(move |j| (*k, *j))).collect();
+    ctx.sweep("vanity-one-shot-failure", "vanity search for 0xfff with ONLY request k failing (k in {1, 2, 3, 5}) x -j {1, 2, 4}; the first 60 answers do not match: error exit, nothing printed", once.len() as u64, |i| {
+        let (k, j) = once[i as usize]; let mut seed = 4000 + i * 1000;
+        'pick: loop { for q in 0..60 { let e = stream_bytes(seed, q, 16); let key = key_of(&curve, &bip39::entropy_to_phrase(&e), "", &default_path(0)); if address_has_prefix(&eth::address_of_secret(&curve, &key), &[15, 15, 15]) { seed += 1; continue 'pick; } } break; }
+        let cmd = Cmd::new(&["new", "--vanity-prefix", "0xfff", "-j", j]).timeout(120);
+        let (r, reqs, full) = run_shimmed(&cmd, Build::Release, &Mode::StreamFailOnce { seed, fail_at: k }, "vanity-one-shot-failure", i);
+        let shape = format!("vanity,one-shot-failure,j={j}");
+        ctx.sample("vanity-one-shot-failure", || serde_json::json!({"command": trunc(&full.shown(), 300), "requests_seen": reqs.len()}));
+        ctx.eval(format!("{shape}:{:?}", r.status));
+        if r.crashed() { ctx.panic_violation(format!("{P}:new:{shape}:{}", r.crash_kind()), r.describe(), full.replay("vanity-one-shot-failure", i, Build::Release)) }
+        else if r.ok() || !r.stdout.is_empty() { ctx.violation(format!("{P}:new:{shape}:phrase-despite-failure"), format!("request {k} of the entropy source failed (and no other worker could have finished before) but the tool printed {:?} after {} requests", trunc(&r.line(), 120), reqs.len()), full.replay("vanity-one-shot-failure", i, Build::Release)) }
+    });
     ctx.sweep("vanity-data-flow", "vanity search for each single hex digit x -j {0, 1} under a scripted stream: the printed phrase is the phrase of one of the answers the source gave", 32, |i| {
         let digit = format!("0x{:x}", i % 16); let j = ["0", "1"][(i / 16) as usize]; let len = if i % 3 == 0 { 24 } else { 12 };
         let cmd = Cmd::new(&["new", "-n", &len.to_string(), "--vanity-prefix", &digit, "-j", j]).timeout(120);
